@@ -11,6 +11,7 @@ From Coq Require Import Init.Byte.
 From FFS Require Import Base.Res Base.Bytes Rpc.Body Rpc.WfModel Rpc.WfSpec Rpc.WfProofs Rpc.WfProofs2 Rpc.WfProofs3 Rpc.WfProofs4.
 From FFS Require Rpc.Json Rpc.Model.
 From FFS Require Import Rpc.WfProofsC09.
+From FFS Require Import Rpc.Refine Rpc.RefineSim Rpc.RefineThms Rpc.RefineBackend.
 Import ListNotations.
 
 (* 1. Whatever the body, its lexer verdict, the state of the world, the backend, the wallet and the
@@ -203,6 +204,162 @@ Theorem C16_history_id_echo :
 Proof. exact serve_history_ids. Qed.
 Print Assumptions C16_history_id_echo.
 
+(* 10. (round 4) The refinement between the two handler models.  WfModel's Section variables are instantiated
+       by the definitions of C09's concrete model (Rpc/RefineSim.v: W := the nonce cell txn.Nonce, F := the
+       decoded transaction with its raw `from`, sync_request := Model.SyncRequest backend, call_nonce :=
+       dec_address + Model.CallRPC + dec_hexint, get_accounts := the wallet's list, sign := Model.wallet_Sign,
+       decode_txn := Json.decode_transaction, parse_from := dec_address succeeds; the lexer verdict is
+       [verdict_of (lex body)], requests / responses go through [abs_req] / [abs_resp] of Rpc/Refine.v).
+       Simulation, with no hypothesis on the backend, the signer or the order: whenever the concrete handler
+       returns a reply, that reply is the serialisation [cp_tree cp] of a payload [cp] such that WfModel's
+       handler -- for any scheduler that hands out the same completion order for this batch, from every
+       world -- returns the same HTTP status and the abstraction [cp_abs cp] of that payload (same single /
+       batch shape, same response objects slot by slot). *)
+Theorem C16_simulation :
+  forall (parse_int : bytes -> option Z) (lex : bytes -> option Json.json) (accounts : list bytes)
+         (sign_with : bytes -> Json.transaction -> Z -> res bytes)
+         (backend : Model.frame -> Model.backend_reply) (chain : Z)
+         (body : bytes) (order : list nat) (sched : RefineSim.W -> nat -> list nat),
+    (forall w t ms, lex body = Some t -> Json.decode_batch t = Ok ms -> sched w (length ms) = order) ->
+    forall status tree traces,
+      Model.rpcHandler parse_int lex accounts sign_with backend chain body order = Ok (status, tree, traces) ->
+      exists cp, tree = cp_tree cp /\
+        forall w, exists w',
+          rpcHandler RefineSim.W RefineSim.F (i_sync backend) (i_call_nonce parse_int backend) (i_get_accounts accounts)
+                     (i_sign sign_with chain) (i_decode_txn parse_int) i_parse_from sched w body (verdict_of (lex body))
+          = Ok (mkReply status (cp_abs cp), w').
+Proof. exact rpcHandler_sim_flat. Qed.
+Print Assumptions C16_simulation.
+
+(* 10b. ... packaged with totality: if the signer returns and the order is a completion order of the batch
+        the body decodes to, the concrete handler returns, and WfModel's handler under the instantiation (with
+        the scheduler [i_sched order], which satisfies the permutation hypothesis of theorems 1-9) returns
+        the abstraction of the same reply. *)
+Theorem C16_refines_C09 :
+  forall (parse_int : bytes -> option Z) (lex : bytes -> option Json.json) (accounts : list bytes)
+         (sign_with : bytes -> Json.transaction -> Z -> res bytes)
+         (backend : Model.frame -> Model.backend_reply) (chain : Z),
+    (forall a t c, sign_with a t c <> Panic) ->
+    forall (body : bytes) (order : list nat),
+      (forall t ms, lex body = Some t -> Json.decode_batch t = Ok ms -> Permutation order (seq 0 (length ms))) ->
+      exists status cp traces,
+        Model.rpcHandler parse_int lex accounts sign_with backend chain body order = Ok (status, cp_tree cp, traces) /\
+        forall w, exists w',
+          rpcHandler RefineSim.W RefineSim.F (i_sync backend) (i_call_nonce parse_int backend) (i_get_accounts accounts)
+                     (i_sign sign_with chain) (i_decode_txn parse_int) i_parse_from (i_sched order) w body (verdict_of (lex body))
+          = Ok (mkReply status (cp_abs cp), w').
+Proof. exact rpcHandler_refines. Qed.
+Print Assumptions C16_refines_C09.
+
+(* 11. C16_wellformed carried over to the concrete model through 10 (RefineThms.wellformed_tree is
+       WfSpec.wellformed_reply on the serialised reply): the reply tree is one JSON-RPC 2.0 response object
+       (an object with "jsonrpc":"2.0", an id member and exactly one of result / error{code,message}) or a
+       non-empty array of them; a parseable batch of n gets an array of n; an array only answers an array of
+       that length.  GUARD (the place where the two models differ): WfModel assumes [sync_wf] of its abstract
+       SyncRequest; for Model.SyncRequest this is not a theorem for every backend (theorem 14), so it is the
+       explicit hypothesis [sync_wf_c backend] -- every response SyncRequest hands back has jsonrpc "2.0" and
+       exactly one of result / error -- which theorem 13 derives for backends that speak JSON-RPC 2.0. *)
+Theorem C16_wellformed_concrete :
+  forall (parse_int : bytes -> option Z) (lex : bytes -> option Json.json) (accounts : list bytes)
+         (sign_with : bytes -> Json.transaction -> Z -> res bytes)
+         (backend : Model.frame -> Model.backend_reply) (chain : Z),
+    (forall a t c, sign_with a t c <> Panic) ->
+    forall (body : bytes) (order : list nat),
+      (forall t ms, lex body = Some t -> Json.decode_batch t = Ok ms -> Permutation order (seq 0 (length ms))) ->
+      sync_wf_c backend ->
+      exists status tree traces,
+        Model.rpcHandler parse_int lex accounts sign_with backend chain body order = Ok (status, tree, traces) /\
+        wellformed_tree body (verdict_of (lex body)) tree.
+Proof. exact wellformed_concrete. Qed.
+Print Assumptions C16_wellformed_concrete.
+
+(* 12. C16_id_echo carried over (RefineThms.id_echo_tree): for EVERY backend -- [sync_echo] is a theorem
+       about Model.SyncRequest, no guard -- the reply to a decoded single request is an object (not null)
+       whose "id" member is the request's id (null when absent); slot i of the reply to a decoded non-empty
+       batch is an object whose "id" is that of member i (null for a null member), for every completion order;
+       a reply that is not an array carries the literal id 1 or the id of the decoded request. *)
+Theorem C16_id_echo_concrete :
+  forall (parse_int : bytes -> option Z) (lex : bytes -> option Json.json) (accounts : list bytes)
+         (sign_with : bytes -> Json.transaction -> Z -> res bytes)
+         (backend : Model.frame -> Model.backend_reply) (chain : Z),
+    (forall a t c, sign_with a t c <> Panic) ->
+    forall (body : bytes) (order : list nat),
+      (forall t ms, lex body = Some t -> Json.decode_batch t = Ok ms -> Permutation order (seq 0 (length ms))) ->
+      exists status tree traces,
+        Model.rpcHandler parse_int lex accounts sign_with backend chain body order = Ok (status, tree, traces) /\
+        id_echo_tree lex body tree.
+Proof. exact id_echo_concrete. Qed.
+Print Assumptions C16_id_echo_concrete.
+
+(* 12b. C16_history / C16_history_id_echo carried over: every finite history of (body, completion order)
+        pairs is served to its end by the concrete handler ([serve_c]: the concrete model has no handler
+        state, so a history is served request by request) and every reply meets 11 and 12. *)
+Theorem C16_history_concrete :
+  forall (parse_int : bytes -> option Z) (lex : bytes -> option Json.json) (accounts : list bytes)
+         (sign_with : bytes -> Json.transaction -> Z -> res bytes)
+         (backend : Model.frame -> Model.backend_reply) (chain : Z),
+    (forall a t c, sign_with a t c <> Panic) ->
+    forall (h : list (bytes * list nat)),
+      Forall (fun bo => forall t ms, lex (fst bo) = Some t -> Json.decode_batch t = Ok ms ->
+                                     Permutation (snd bo) (seq 0 (length ms))) h ->
+      sync_wf_c backend ->
+      exists reps,
+        serve_c parse_int lex accounts sign_with backend chain h = Ok reps /\
+        Forall2 (fun bo hr => wellformed_tree (fst bo) (verdict_of (lex (fst bo))) (reply_tree_of hr) /\
+                              id_echo_tree lex (fst bo) (reply_tree_of hr)) h reps.
+Proof. exact history_concrete. Qed.
+Print Assumptions C16_history_concrete.
+
+(* 12c. The history-level refinement: the replies of [serve_c] are, entry by entry, the serialisations of
+        payloads whose abstractions WfModel.serve returns under the instantiation -- for any one scheduler
+        that hands out every entry's completion order (WfModel's scheduler is a function of the world and
+        the batch size, and the instantiated world is only the nonce cell: one scheduler covers the histories
+        in which batches of equal size complete in the same order; 10b covers each request of any history). *)
+Theorem C16_history_refines_C09 :
+  forall (parse_int : bytes -> option Z) (lex : bytes -> option Json.json) (accounts : list bytes)
+         (sign_with : bytes -> Json.transaction -> Z -> res bytes)
+         (backend : Model.frame -> Model.backend_reply) (chain : Z)
+         (sched : RefineSim.W -> nat -> list nat) (h : list (bytes * list nat)),
+    (forall b o, In (b, o) h -> forall w t ms, lex b = Some t -> Json.decode_batch t = Ok ms -> sched w (length ms) = o) ->
+    forall reps, serve_c parse_int lex accounts sign_with backend chain h = Ok reps ->
+    exists cps, Forall2 (fun hr cp => reply_tree_of hr = cp_tree cp) reps cps /\
+      forall w, exists w',
+        serve RefineSim.W RefineSim.F (i_sync backend) (i_call_nonce parse_int backend) (i_get_accounts accounts)
+              (i_sign sign_with chain) (i_decode_txn parse_int) i_parse_from sched w
+              (map (fun bo => (fst bo, verdict_of (lex (fst bo)))) h)
+        = Ok (map (fun x => mkReply (fst (fst (fst x))) (cp_abs (snd x))) (combine reps cps), w').
+Proof. exact serve_refines. Qed.
+Print Assumptions C16_history_refines_C09.
+
+(* 13. The guard of 11 in terms of the backend: it holds when every reply is a JSON-RPC 2.0 result object, an
+       error object with a non-zero code (HTTP 2xx or >= 400), an HTTP error (>= 400) without a JSON-RPC body,
+       or no reply at all (RefineBackend.reply_wf). *)
+Theorem C16_backend_guard :
+  forall (backend : Model.frame -> Model.backend_reply),
+    (forall fr, reply_wf (backend fr)) -> sync_wf_c backend.
+Proof. exact reply_wf_sync_wf. Qed.
+Print Assumptions C16_backend_guard.
+
+(* 14. ... and it is needed: for the backend that answers HTTP 200 with an error object whose code is 0,
+       SyncRequest returns, without error, a response carrying both "result":null and the error object
+       (backend.go treats only a non-zero code as an error) -- WfModel's [sync_wf] fails there. *)
+Theorem C16_backend_guard_needed :
+  let rq := Json.mkReq (Json.bs "2.0") (Some (Json.JNum (Json.bs "7"))) (Json.bs "eth_call") [] in
+  let '(res, err, _) := Model.SyncRequest code0_backend rq in
+  err = false /\ Json.rs_result res = Some Json.JNull /\
+  (exists e, Json.rs_error res = Some e /\ Json.e_code e = 0%Z) /\
+  ~ sync_wf_c code0_backend.
+Proof. exact sync_wf_c_code0_refuted. Qed.
+Print Assumptions C16_backend_guard_needed.
+
+(* 15. The two notions of "a request that cannot be processed" (WfSpec.must_fail under the instantiation,
+       WfProofsC09.must_fail_c of theorem 5b) are the same predicate through the abstraction. *)
+Theorem C16_must_fail_agree :
+  forall (parse_int : bytes -> option Z) (m : option Json.rpc_request),
+    must_fail RefineSim.F (i_decode_txn parse_int) i_parse_from (abs_oreq m) = must_fail_c parse_int m.
+Proof. exact must_fail_sim. Qed.
+Print Assumptions C16_must_fail_agree.
+
 (* ---- non-vacuity ---- *)
 Definition ex_sync (w : unit) (q : request) : (option response * bool) * unit :=
   ((Some (mkResp v2_0 (q_id q) (Some (JStr (ascii_bytes "0xabc"))) None), false), tt).
@@ -310,6 +467,40 @@ Example C16_history_id_echo_nonvacuous :
     = Ok ([mkReply s1 (PSingle (Some r1)); mkReply s2 (PBatch [Some r2]); mkReply s3 (PSingle (Some r3))], tt) /\
     r_id r1 = Some (JNum (ascii_bytes "1")) /\ r_id r2 = None /\ r_id r3 = Some (JNum (ascii_bytes "7")).
 Proof. eexists _, _, _, _, _, _. split; [vm_compute; reflexivity|]. repeat split. Qed.
+
+(* refinement / concrete shape theorems: a signer that returns, a backend that speaks JSON-RPC 2.0, a batch of a
+   relayed request and a null member completing in reverse order: the hypotheses of 10b-12 hold, and the
+   concrete handler answers with an array of two objects carrying "a" / the backend's result and null / an error *)
+Definition exc_backend (_ : Model.frame) : Model.backend_reply :=
+  Model.reply_result (Json.JNum (Json.bs "99")) (Json.JStr (Json.bs "0xabc")).
+Definition exc_tree : Json.json :=
+  Json.JArr [Json.JObj [(Json.bs "id", Json.JStr (Json.bs "a")); (Json.bs "method", Json.JStr (Json.bs "eth_call"))]; Json.JNull].
+Example C16_concrete_refinement_nonvacuous :
+  let sign_with := fun (_ : bytes) (_ : Json.transaction) (_ : Z) => @Err bytes 3%nat in
+  let lex := fun _ : bytes => Some exc_tree in
+  let body := ascii_bytes "[x]" in
+  (forall a t c, sign_with a t c <> Panic) /\
+  (forall t ms, lex body = Some t -> Json.decode_batch t = Ok ms -> Permutation [1; 0]%nat (seq 0 (length ms))) /\
+  sync_wf_c exc_backend /\
+  exists s1 s2 traces,
+    Model.rpcHandler (fun _ => None) lex [] sign_with exc_backend 1%Z body [1; 0]%nat = Ok (500%N, Json.JArr [s1; s2], traces) /\
+    tree_member "id" s1 = Some (Json.JStr (Json.bs "a")) /\ tree_member "result" s1 = Some (Json.JStr (Json.bs "0xabc")) /\
+    tree_member "id" s2 = Some Json.JNull /\ tree_member "error" s2 <> None /\
+    (* ... and the abstract handler under the instantiation replies with the abstraction of the same two slots *)
+    exists r1 r2 w',
+      rpcHandler RefineSim.W RefineSim.F (i_sync exc_backend) (i_call_nonce (fun _ => None) exc_backend) (i_get_accounts [])
+                 (i_sign sign_with 1%Z) (i_decode_txn (fun _ => None)) i_parse_from (i_sched [1; 0]%nat) None body (verdict_of (lex body))
+      = Ok (mkReply 500 (PBatch [Some r1; Some r2]), w') /\
+      r_id r1 = Some (JStr (ascii_bytes "a")) /\ r_result r1 = Some (JStr (ascii_bytes "0xabc")) /\ r_id r2 = None /\ r_error r2 <> None.
+Proof.
+  cbv zeta. split; [intros; discriminate|]. split.
+  { intros t ms El Ed. injection El as <-. vm_compute in Ed. injection Ed as <-. apply perm_swap. }
+  split; [apply reply_wf_sync_wf; intros fr; apply wf_result|].
+  eexists _, _, _. split; [vm_compute; reflexivity|].
+  repeat (split; [reflexivity|]). split; [discriminate|].
+  eexists _, _, _. split; [vm_compute; reflexivity|].
+  repeat (split; [reflexivity|]). discriminate.
+Qed.
 
 (* Tie of the hand-written JSON-RPC error codes of Rpc/WfModel.v (and of Rpc/Model.v, which
    WfProofsC09 links to it) to the source.  Gen/Consts.v is regenerated on every run by the
